@@ -285,11 +285,6 @@ def format_eq_full : Prop :=
 
 def no_panic_full : Prop := ∀ (spec : List Nat) (v : Value), format spec v ≠ .panic
 
-/-- still false: a float precision above `u16::MAX` panics inside `format!` (rustc ≥ 1.87) -/
-theorem no_panic_fails : ¬ no_panic_full := by
-  intro h
-  exact h [46, 54, 53, 53, 51, 54, 102] (.float 4607182418800017408) (by decide +kernel)
-
 /-- still false: `format("a", "=5")` is accepted -/
 theorem format_eq_fails : ¬ format_eq_full := by
   intro h
@@ -340,10 +335,6 @@ theorem dev_float_no_dot_zero : (format [46, 53] (.float 4607182418800017408)).v
 /-- float-percent-overflow-alt: `format(f64::MAX, "#.0%")` -/
 theorem dev_float_percent_overflow : (format [35, 46, 48, 37] (.float 9218868437227405311)).view = some (some [105, 110, 102, 46, 37]) ∧
     pyFormat [35, 46, 48, 37] (PyValue.float 9218868437227405311) = some [105, 110, 102, 37] := by decide +kernel
-
-/-- precision-over-65535-panic: `format(1.0, ".65536f")` (CPython prints 65536 digits) -/
-theorem dev_precision_over_u16 : format [46, 54, 53, 53, 51, 54, 102] (.float 4607182418800017408) = .panic := by
-  decide +kernel
 
 end witnesses
 
@@ -404,6 +395,10 @@ theorem repaired_c_nonascii_width : (format [53, 99] (.int 255)).view = some (so
 
 /-- int-c-surrogate-panic (b3fed62): no panic any more -/
 theorem repaired_c_surrogate_no_panic : format [99] (.int 55296) ≠ .panic := by decide
+/-- precision-over-65535-panic (FIXHASH_A): `format(1.0, ".65536f")` no longer panics -/
+theorem repaired_precision_over_u16 :
+    format [46, 54, 53, 53, 51, 54, 102] (.float 4607182418800017408) ≠ .panic := by decide +kernel
+
 /-- width-wraps-i32 (b59d482): widths above `i32::MAX` are rejected at parse time -/
 theorem repaired_width_limit : (∃ e, parseSpec [52, 50, 57, 52, 57, 54, 55, 51, 48, 49] = .error e) ∧
     (∃ e, parseSpec [50, 49, 52, 55, 52, 56, 51, 54, 52, 56] = .error e) := ⟨⟨_, rfl⟩, ⟨_, rfl⟩⟩
